@@ -58,7 +58,7 @@ Proof. vm_compute. reflexivity. Qed.
 Example C20_F7_refuted :
   let toks := [98]%N in
   let g := RecoverVia (Labelled 1 false (Just [97%N])) (Just [98%N]) in
-  run_top (mkQ true false false false false false false false false None) KEmpty toks (fun a b => (a, b)) 12 Emit g
+  run_top (mkQ true false false false false false false false false false None) KEmpty toks (fun a b => (a, b)) 12 Emit g
     = TPanic PUnwrapRecovery.
 Proof. vm_compute. reflexivity. Qed.
 
